@@ -33,9 +33,9 @@ def search_jobs(prop, tier):
                    functions=[fn_id(C._ctparse)], stubs=STUBS, site="_ctparse"))
     depths = [0, 1, 10]
     for d in depths:
-        nsym, smax = (3, 1) if tier == "quick" else (4, 2)
+        nsym, smax = (3, 1) if tier == "quick" else (4, 1)
         out.append(Job("{}.STREAM[depth={}]".format(prop, d), H, "ob_stream", env={"VQ_DEPTH": str(d), "VQ_NSYM": str(nsym), "VQ_SMAX": str(smax)}, timeout=1200,
-                       bounds="3 matches / 2 maximal sequences, first {} scorer results symbolic in 0..{} (later ones 0), max_stack_depth={}".format(nsym, smax, d),
+                       bounds="3 matches / 2 maximal sequences, {} symbolic scorer values in 0..{} reused cyclically for all scorings, max_stack_depth={}".format(nsym, smax, d),
                        functions=[fn_id(C._ctparse), fn_id(PP.PartialParse.__lt__)], stubs=STUBS, site="_ctparse"))
     return out
 
